@@ -1,7 +1,8 @@
-\* C01 trace validation, strict reading: the header of a relayed SOCKS5 reply must also name the target
+\* C01 trace validation: strict reading: the header of a relayed SOCKS5 reply must name the target, a write must not block for good after the peer closed
 SPECIFICATION Spec
 CONSTANTS
   HdrAddr = "target"
+  Stall = "violation"
 CONSTRAINT Track
 POSTCONDITION Accepted
 CHECK_DEADLOCK FALSE
